@@ -140,6 +140,7 @@ func newConfig() *refstore.Config {
 func newRig(requestObjects bool) *rig.Rig {
 	oc := rig.DefaultOPConfig()
 	oc.RequestObjectSupported = requestObjects
+	oc.DeviceAuthorization.Lifetime = 6 * time.Hour // the prepared device codes must outlive the largest age
 	return rig.MustNew(rig.Opts{Cfg: newConfig(), OP: oc})
 }
 
